@@ -181,11 +181,13 @@ Proof. exact to_sdef_roundtrip_l. Qed.
    (DESIGN: compile_wf / topo_is_permutation_respecting_edges) and is not proved there yet.
    Full statement = this one without the hypothesis.  Meanwhile bridge_check evaluates graph_ok,
    wf_def and byte equality with the REAL library on every correspondence program. *)
-Theorem compiled_programs_roundtrip_partial : forall T strict guard,
-  (forall p g, Graph.compile T strict guard p = Graph.Ok g -> graph_ok g = true) ->
+Theorem compiled_programs_roundtrip_partial : forall (cmp : Graph.prog -> Graph.res Graph.graph),
+  (* cmp = Graph.compile T <flags>; stated for any function of this type so that it does not depend
+     on how many flags the compiler model takes *)
+  (forall p g, cmp p = Graph.Ok g -> graph_ok g = true) ->
   forall f32 name pnames p g,
   (forall q, w32_ok (f32 q) = true) ->
-  Graph.compile T strict guard p = Graph.Ok g ->
+  cmp p = Graph.Ok g ->
   names_ok name pnames (zlen (Graph.gr_controls g)) = true ->
   exists d bs, to_sdef f32 name pnames g = Some d /\ wf_def d = true
                /\ write_def d = Some bs /\ parse_def bs = Ok d.
@@ -242,12 +244,16 @@ Proof. vm_compute. split; reflexivity. Qed.
 (* the compiler model on a concrete program: SinOsc.ar(freq) -> Out.ar(out, .) with two kr parameters;
    its output passes graph_ok (the hypothesis compile_wf is met here) and the bridge applies *)
 Definition ex_T := Graph.mkT unops_list binops_list.
+(* the compiler model with the regenerated flags (its number of flags has changed over time) *)
+Definition ex_cmp : Graph.prog -> Graph.res Graph.graph :=
+  ltac:(first [ exact (Graph.compile ex_T dce_strict dce_guard sub_guard)
+              | exact (Graph.compile ex_T dce_strict dce_guard) ]).
 Definition ex_prog : Graph.prog :=
   Graph.mkP [] [QArith_base.Qmake 440 1; QArith_base.Qmake 0 1]
     [Graph.IU "SinOsc"%string Graph.Audio [Graph.AP true 0; Graph.AC (QArith_base.Qmake 0 1)];
      Graph.IOut Graph.Audio (Graph.AP true 1) [Graph.AV 0 0]].
 Example ex_compiled_bridge :
-  match Graph.compile ex_T dce_strict dce_guard ex_prog with
+  match ex_cmp ex_prog with
   | Graph.Ok g =>
       graph_ok g = true
       /\ match to_sdef (fun _ => 0) (bs_of_string "c"%string) [(bs_of_string "k0"%string, 0); (bs_of_string "k1"%string, 1)] g with
